@@ -6,3 +6,129 @@ package log
 
 // representation invariant of a log record: nFront counts the used slots of the inline array, counters are non-negative
 //@ typeinv Record = 0 <= self.nFront && self.nFront <= 5 && 0 <= self.dropped
+
+//@ props C17
+
+// the index maps come from a sync.Pool whose New makes an empty map and whose Put is always preceded by clear():
+// getIndex hands out an empty map owned by the caller (assumed)
+//@ func getIndex() (m map[string]int)
+//@   prop -
+//@   trusted "sync.Pool hands out an exclusively owned map that putIndex cleared before returning it to the pool"
+//@   ensures m != nil && fresh(m) && (forall k string : !has(m, k))
+//@ func putIndex(index map[string]int)
+//@   prop -
+//@   trusted "clear(index) and return it to the sync.Pool"
+//@   modifies index
+//@ func logAttrDropped()
+//@   prop -
+//@   trusted "logs once through internal/global (go-logr)"
+
+//@ func (r *Record) addDropped(n int)
+//@   overflow assumed
+//@   requires r != nil && n >= 0
+//@   modifies r.dropped
+//@   ensures r.dropped == old(r.dropped) + n
+//@ func (r *Record) setDropped(n int)
+//@   requires r != nil && n >= 0
+//@   modifies r.dropped
+//@   ensures r.dropped == n
+
+// head: at most n attributes are kept when the limit is positive, the rest is counted as dropped
+//@ func head(kvs []log.KeyValue, n int) (out []log.KeyValue, dropped int)
+//@   ensures n > 0 && len(kvs) > n ==> len(out) == n && dropped == len(kvs) - n && samearray(out, kvs)
+//@   ensures n < 0 || (n > 0 && len(kvs) <= n) ==> out === kvs && dropped == 0
+//@   ensures n == 0 ==> len(out) == 0 && dropped == len(kvs)
+//@   known KF-C17-count-limit-zero when n == 0 && len(kvs) > 0
+
+// dedup: in place over the caller's array; keys unique afterwards, every dropped duplicate is counted, no key is lost
+//@ spec uniqueKeys(l []log.KeyValue) bool = forall i in 0 .. len(l) : forall j in 0 .. i : l[i].Key != l[j].Key
+//@ spec indexed(l []log.KeyValue, m map[string]int) bool = (forall i in 0 .. len(l) : has(m, l[i].Key) && m[l[i].Key] == i) && (forall k string : has(m, k) ==> 0 <= m[k] && m[k] < len(l) && l[m[k]].Key == k)
+//@ func dedup(kvs []log.KeyValue) (unique []log.KeyValue, dropped int)
+//@   overflow assumed
+//@   modifies elems(kvs)
+//@   ensures samearray(unique, kvs) && len(unique) + dropped == len(kvs) && dropped >= 0
+//@   ensures uniqueKeys(unique)
+//@   ensures forall i in 0 .. len(kvs) : exists j in 0 .. len(unique) : unique[j].Key == old(kvs[i].Key)
+//@   loop#1 invariant samearray(unique, kvs) && cap(unique) == cap(kvs) && 0 <= len(unique) && len(unique) + dropped == $k && dropped >= 0 && index != nil
+//@   loop#1 invariant indexed(unique, index)
+//@   loop#1 invariant forall i in $k .. len(kvs) : kvs[i] == old(kvs[i])
+//@   loop#1 invariant forall i in 0 .. $k : has(index, old(kvs[i].Key))
+//@   loop#1 invariant framed()
+
+// ---- value-length limit: limitedV(limit, v) is an abstract predicate ("v went through the limiter with this limit");
+// it is established only by applyValueLimits, so a stored attribute satisfies it only if it was limited on the way in.
+//@ spec limitedV(limit int, v log.Value) bool
+//@ spec limitedKV(limit int, kv log.KeyValue) bool = limitedV(limit, kv.Value)
+//@ func (r *Record) applyValueLimits(val log.Value) (out log.Value)
+//@   prop -
+//@   trusted "recursion over log.Value trees through the accessors of module log; establishes the abstract predicate limitedV"
+//@   requires r != nil
+//@   modifies r.dropped
+//@   ensures limitedV(r.attributeValueLengthLimit, out) && r.dropped >= old(r.dropped)
+//@ func (r *Record) applyAttrLimits(attr log.KeyValue) (out log.KeyValue)
+//@   requires r != nil
+//@   modifies r.dropped
+//@   ensures out.Key == attr.Key && limitedKV(r.attributeValueLengthLimit, out) && r.dropped >= old(r.dropped)
+
+// addAttrs: every attribute offered is stored (inline slots first, then the back slice), each one limited on the way in
+//@ func (r *Record) addAttrs(attrs []log.KeyValue)
+//@   overflow assumed
+//@   requires r != nil
+//@   modifies r.front, r.nFront, r.back, r.dropped, elems(attrs), elemscap(r.back)
+//@   ensures r.nFront + len(r.back) == old(r.nFront) + old(len(r.back)) + len(attrs) && r.nFront >= old(r.nFront) && r.nFront <= 5 && r.dropped >= old(r.dropped)
+//@   ensures r.attributeValueLengthLimit == old(r.attributeValueLengthLimit) && r.attributeCountLimit == old(r.attributeCountLimit)
+//@   assert@store front#* : limitedKV(r.attributeValueLengthLimit, $val)
+//@   assert@call Grow#1 : forall k in i .. len(attrs) : limitedKV(r.attributeValueLengthLimit, attrs[k])
+//@   loop#1 invariant 0 <= i && i <= len(attrs) && r.nFront == old(r.nFront) + i && r.nFront <= 5 && r.back === old(r.back) && r.dropped >= old(r.dropped) && framed()
+//@   loop#2 invariant forall k in i .. i + $k : limitedKV(r.attributeValueLengthLimit, attrs[k])
+//@   loop#2 invariant r.nFront == old(r.nFront) + i && r.back === old(r.back) && r.dropped >= old(r.dropped) && framed()
+
+// attrIndex: key -> position; negative values -i-1 address the inline array, non-negative ones the back slice
+//@ func (r *Record) attrIndex() (index map[string]int)
+//@   requires r != nil
+//@   ensures index != nil && fresh(index)
+//@   ensures forall k string : has(index, k) ==> (index[k] < 0 ==> 0 <= -(index[k] + 1) && -(index[k] + 1) < r.nFront) && (index[k] >= 0 ==> index[k] < len(r.back))
+//@   loop#1 invariant 0 <= i && i <= r.nFront && index != nil && fresh(index) && framed()
+//@   loop#1 invariant forall k string : has(index, k) ==> index[k] < 0 && 0 <= -(index[k] + 1) && -(index[k] + 1) < r.nFront
+//@   loop#2 invariant 0 <= i && i <= len(r.back)
+//@   loop#2 invariant index != nil && fresh(index)
+//@   loop#2 invariant framed()
+//@   loop#2 invariant forall k string : has(index, k) ==> (index[k] < 0 ==> 0 <= -(index[k] + 1) && -(index[k] + 1) < r.nFront) && (index[k] >= 0 ==> index[k] < len(r.back))
+
+// SetAttributes: the count limit holds afterwards, and every stored attribute was limited on the way in
+//@ func (r *Record) SetAttributes(attrs []log.KeyValue)
+//@   overflow assumed
+//@   known KF-C17-count-limit-zero when r.attributeCountLimit == 0
+//@   requires r != nil
+//@   modifies r.front, r.nFront, r.back, r.dropped, elems(attrs)
+//@   ensures r.attributeCountLimit > 0 ==> r.nFront + len(r.back) <= r.attributeCountLimit
+//@   ensures r.nFront + len(r.back) <= len(attrs)
+//@   assert@store front#* : limitedKV(r.attributeValueLengthLimit, $val)
+//@   assert@store elem#* : limitedKV(r.attributeValueLengthLimit, $val)
+//@   loop#1 invariant 0 <= i && i <= len(attrs) && r.nFront == i && r.nFront <= 5 && r.dropped >= 0
+//@   loop#1 invariant r.attributeCountLimit == old(r.attributeCountLimit) && r.attributeValueLengthLimit == old(r.attributeValueLengthLimit)
+//@   loop#1 invariant framed("frame.S_")
+//@   loop#1 invariant framed("frame.elems")
+//@   loop#2 invariant r.dropped >= 0 && r.nFront <= 5 && 0 <= r.nFront && r.attributeCountLimit == old(r.attributeCountLimit) && r.attributeValueLengthLimit == old(r.attributeValueLengthLimit) && framed("frame.S_") && fresh(r.back) && framed("frame.elems")
+
+// AddAttributes: whether an attribute is new or overwrites an existing key, what is stored in the record was limited
+// on the way in; with a positive count limit the record never holds more than the limit
+//@ func (r *Record) AddAttributes(attrs []log.KeyValue)
+//@   overflow assumed
+//@   known KF-C17-count-limit-zero when r.attributeCountLimit == 0
+//@   unchecked frame both dedup paths write the caller's slice and the record; only the stores into the record are pinned down here
+//@   requires r != nil && disjoint(attrs, r.back)
+//@   ensures r.attributeCountLimit > 0 && old(r.nFront) + old(len(r.back)) <= r.attributeCountLimit ==> r.nFront + len(r.back) <= r.attributeCountLimit
+//@   assert@store front#* : limitedKV(r.attributeValueLengthLimit, $val)
+//@   assert@store elem#2 : limitedKV(r.attributeValueLengthLimit, $val)
+//@   loop#1 invariant indexed(unique, uIndex) && samearray(unique, attrs) && cap(unique) == cap(attrs) && len(unique) <= $k && uIndex != nil && rIndex != nil
+//@   loop#1 invariant r.nFront == old(r.nFront) && len(r.back) == old(len(r.back)) && r.attributeCountLimit == old(r.attributeCountLimit) && r.attributeValueLengthLimit == old(r.attributeValueLengthLimit) && r.nFront <= 5 && 0 <= r.nFront && r.dropped >= 0 && r.back === old(r.back)
+//@   loop#1 invariant forall k string : has(rIndex, k) ==> (rIndex[k] < 0 ==> 0 <= -(rIndex[k] + 1) && -(rIndex[k] + 1) < r.nFront) && (rIndex[k] >= 0 ==> rIndex[k] < len(r.back))
+
+// ---- truncate: same code and same contract text as sdk/trace.truncate (C04)
+//@ func truncate(limit int, s string) (r string)
+//@   ensures limit < 0 || len(s) <= limit ==> r == s
+//@   loop#1 invariant 0 <= count && count <= limit && count == runes_upto(s, $off)
+//@   loop#2 invariant 0 <= i && i <= len(s) && count <= limit
+//@   assert@return#2 : runes_upto(s, i) == limit
+//@   assert@return#3 : count == runes_upto(s, len(s)) && count <= limit
